@@ -68,7 +68,15 @@ C26Violations(req, got) ==
 (* ======================= algorithm level ======================= *)
 (* translateV2ToV1 resolves list after list, pair after pair, and stops with an error at the    *)
 (* first reference outside the table; handleV2HTTP answers 400 then.                             *)
+(* After a successful ingestion it reports what it accepted in the response headers                *)
+(* X-Prometheus-Remote-Write-{Samples,Histograms,Exemplars}-Written: the numbers of samples,      *)
+(* histograms and exemplars of the request (-1 = header absent).                                   *)
+RECURSIVE SumLen(_, _)
+SumLen(series, field) == IF series = <<>> THEN 0
+                         ELSE Len(Head(series)[field]) + SumLen(Tail(series), field)
 TranslateAlgo(req) == IF \E l \in RefLists(req) : ~Resolvable(req.symbols, l)
-                        THEN [kind |-> "rejected", status |-> 400, series |-> <<>>]
-                        ELSE [kind |-> "ingested", status |-> 200, series |-> Expected(req)]
+                        THEN [kind |-> "rejected", status |-> 400, series |-> <<>>, written |-> <<-1, -1, -1>>]
+                        ELSE [kind |-> "ingested", status |-> 200, series |-> Expected(req),
+                              written |-> <<SumLen(req.series, "samples"), SumLen(req.series, "hists"),
+                                            SumLen(req.series, "exemplars")>>]
 =============================================================================
